@@ -122,12 +122,15 @@ func verif_contract_arp_spoofer_Handler_StartHunt(h *Handler, addr packet.Addr, 
 	vCanary()
 	_, was := h.huntList[string(addr.MAC)]
 	o0, oin0 := h.huntList[string(other)]
+	e0 := h.huntList[string(addr.MAC)]
 	n0 := len(h.huntList)
 	w0 := vWireCount()
+	s0 := vSpawned()
 	ok0 := spec_huntlist_ok(h)
 	vModifiesMems("map[string]github.com/irai/packet.Addr")
 	st, err := h.StartHunt(addr)
 	vEnsures(vWireCount() == w0)
+	s1 := vSpawned()
 	if ok0 && len(addr.MAC) == 6 {
 		vEnsures(spec_huntlist_ok(h)) // entries keep a 6-byte MAC and an IPv4 address
 	}
@@ -137,9 +140,12 @@ func verif_contract_arp_spoofer_Handler_StartHunt(h *Handler, addr packet.Addr, 
 		e, now := h.huntList[string(addr.MAC)]
 		vEnsures(err == nil && st == packet.StageHunt && now)
 		if was {
-			vEnsures(len(h.huntList) == n0)
+			// idempotent: the existing entry is kept as it is and no second spoof loop is started
+			vEnsures(len(h.huntList) == n0 && e.IP == e0.IP && e.Port == e0.Port && len(e.MAC) == len(e0.MAC) && (len(e.MAC) == 0 || (vSameRegion(e.MAC, e0.MAC) && vOffset(e.MAC, e0.MAC) == 0)))
+			vEnsures(s1 < 0 || s1 == s0)
 		} else {
 			vEnsures(len(h.huntList) == n0+1 && e.IP == addr.IP)
+			vEnsures(s1 < 0 || s1 == s0+1) // exactly one spoof loop for a newly hunted MAC
 		}
 	}
 	if string(other) != string(addr.MAC) {
